@@ -87,6 +87,52 @@ def views_tie(chk):
                        len(meta), dis)
 
 
+def far_probe_below(cfg, msg, sites):
+    """the lookup raised 'below lowest bound' inside the stellar-evolution derivative for a remnant mass SMALLER than the white-dwarf mass of the
+    turn-off at 14 Gyr: no requested age can produce it - the solver evaluated the derivative far beyond the last age (its first trial step)"""
+    mm = re.search(r"mass ([0-9.eE+-]+) is below lowest bound", msg)
+    if not (mm and "_derivs_sev" in sites and "determine_index" in sites):
+        return False
+    try:
+        car = U.base_emf(FeH=cfg["FeH"])
+        wd14 = float(car.IFMR.predict(float(car.compute_mto(np.array(14000.0)))))
+        return bool(float(mm.group(1)) < wd14 * (1 - 1e-6) and max(cfg["tout"]) <= 14000.0)
+    except Exception:  # noqa
+        return False
+
+
+def dissolved(cfg, out):
+    """only consulted when a row has non-finite or negative entries: does the requested escape (rate x age, a constant rate) exceed what the SAME
+    configuration holds at that age without escape?  Then there is no cluster left to describe (the generator's 40 % cap refers to N0, but a
+    top-heavy IMF with no NS / BH retained keeps far less than that)"""
+    bad = False
+    for nm in ("Ns", "Ms"):
+        a = np.asarray(out[nm], dtype=float)
+        bad = bad or (not np.all(np.isfinite(a))) or bool(np.any(a < -1e-6 * max(cfg["N0"], 1.0)))
+    for c in range(3):
+        a = np.asarray(out["Nr"][c], dtype=float)
+        bad = bad or (not np.all(np.isfinite(a))) or bool(np.any(a < -1e-6 * max(cfg["N0"], 1.0)))
+    if not bad or callable(cfg.get("esc_rate")):
+        return False
+    try:
+        import warnings
+        with warnings.catch_warnings():
+            warnings.simplefilter("ignore")
+            ref = FR.build(dict({k: v for k, v in cfg.items() if k != "want_ifmr_grid"}, esc_rate=0.0))
+    except Exception:  # noqa
+        return False
+    for i, t in enumerate(cfg["tout"]):
+        if cfg.get("esc_norm", "N") == "M":
+            left = float(ref.Ms[i].sum() + sum(x[i].sum() for x in ref.Mr)) + cfg["esc_rate"] * t
+            scale = float(ref.Ms[0].sum() + sum(x[0].sum() for x in ref.Mr))
+        else:
+            left = float(ref.Ns[i].sum() + sum(x[i].sum() for x in ref.Nr)) + cfg["esc_rate"] * t
+            scale = cfg["N0"]
+        if left <= 0.02 * max(scale, 1.0):
+            return True
+    return False
+
+
 def kicks_exceed_budget(cfg):
     """formed BH mass per age (same configuration, no kicks, full dynamical retention) and the mass the natal kicks remove from it"""
     import warnings
@@ -129,6 +175,7 @@ def inspect(chk, out):
         chk.fail("construction of a valid configuration returns without raising", cfg, dict(error=out["error"], site=out["site"], msg=out["msg"]),
                  error=out["error"], site=out["site"], in_determine_index=bool("determine_index" in sites), in_derivs=bool("_derivs_sev" in sites),
                  unbinned_mass=(lambda mm: float(mm.group(1)) if mm else None)(re.search(r"mass ([0-9.eE+-]+) is above highest bound", out["msg"])),
+                 far_probe_below_wd_bins=far_probe_below(cfg, out["msg"], sites),
                  in_dyn_eject=bool("_dyn_eject_BH" in sites), kicks_msg=bool("Natal kicks already removed" in out["msg"]),
                  wd_msg=bool("above highest bound" in out["msg"] and "WD" not in out["msg"] or "above highest bound" in out["msg"]),
                  ret_dyn=cfg.get("BH_ret_dyn"))
@@ -137,6 +184,9 @@ def inspect(chk, out):
         chk.count("non-converged (flagged, exempt)")
         return
     chk.count("converged runs inspected")
+    if cfg.get("esc_rate") and dissolved(cfg, out):
+        chk.count("requested escape exceeds what stellar evolution leaves of the cluster before the last age (dissolved cluster: not a valid configuration)")
+        return
     arrs = dict(Ns=out["Ns"], alpha=out["alpha"], Ms=out["Ms"], mmean=out["mmean"])
     for c, nm in enumerate(("WD", "NS", "BH")):
         arrs["Nr." + nm], arrs["Mr." + nm], arrs["mr." + nm] = out["Nr"][c], out["Mr"][c], out["mr"][c]
@@ -237,6 +287,8 @@ def classify(f):
         return None
     if f.get("in_determine_index") and f.get("in_derivs") and f.get("unbinned_mass") is not None and f["unbinned_mass"] < 1.45:
         return "wd_peak_on_upper_edge"        # a white-dwarf mass (below the NS mass) on / above the top WD edge; a BH mass is not covered
+    if f.get("far_probe_below_wd_bins"):
+        return "solver_probe_beyond_last_age_wd_unbinned"
     if f.get("in_dyn_eject") and f.get("ret_dyn") == 0.0:
         return "eject_exact_total_rounding"
     return None
